@@ -49,7 +49,7 @@ def check_outputs(ctx, req, n, A, cond, out):
         ctx.violation(f"inverse differs from the exact inverse: rel {float(r3):.3e} > tol {float(t):.3e}", req, observed=out); return
     d = X.det(A)
     r4 = abs(detv - d) / abs(d)
-    if r4 > t:
+    if r4 > t and abs(detv - d) > Fraction(1, 2 ** 1072):      # (a subnormal determinant is only resolved to 2^-1074)
         ctx.violation(f"determinant differs from the exact determinant: rel {float(r4):.3e} > tol {float(t):.3e}", req, observed=out); return
     worst = max(r1, r2, r3, r4) / t
     ctx.extra["worst_error_over_tolerance"] = max(ctx.extra.get("worst_error_over_tolerance", 0.0), float(worst))
@@ -97,6 +97,26 @@ def run(ctx):
                 continue
             reqs.append({"op": "decomp", "n": n, "a": gen.flat_bits(A), "tol": f2b(0.0), "debug": False})
             infos.append((n, "exact_" + kind + "_tol0", Af, cond))
+    # well-conditioned matrices at a small overall scale: the determinant is a SUBNORMAL number (non-zero, so no ZeroDet), every other output
+    # an ordinary one
+    import math
+    for n in range(2, 7):       # (n = 1: the entry itself would be subnormal and its inverse beyond f64)
+        for _ in range(2 if ctx.quick else 10):
+            A0 = gen.spd_random(rng, n, ridge=1.0)
+            d0 = X.det([[Fraction(x) for x in r] for r in A0])
+            if d0 <= 0:
+                continue
+            k = round((-1050 - math.log2(float(d0))) / n)
+            A = gen.symmetrize([[A0[i][j] * 2.0 ** k for j in range(n)] for i in range(n)])
+            Af = [[Fraction(x) for x in r] for r in A]
+            dd = X.det(Af)
+            if not (Fraction(1, 2 ** 1068) < dd < Fraction(1, 2 ** 1026)) or not X.leading_minors_positive(Af):
+                continue
+            cond = X.cond_inf(Af)
+            if cond is None or cond > 10 ** 8:
+                continue
+            reqs.append({"op": "decomp", "n": n, "a": gen.flat_bits(A)})
+            infos.append((n, "subnormal_det", Af, cond))
     impl = run_harness(reqs)
     model = run_driver(reqs)
     for r, a, m, (n, fam, Af, cond) in zip(reqs, impl, model, infos):
